@@ -484,6 +484,9 @@ func (v *VC) evCall(x SCall, env *SpecEnv) TV {
 			specPanic("before(): not a loop-carried variable: %s", id.Name)
 		}
 		return tv
+	case "wrap32":
+		a := v.ev(x.Args[0], env)
+		return TV{T: fmt.Sprintf("(mod %s 4294967296)", a.T), Typ: tInt}
 	case "wrap64":
 		a := v.ev(x.Args[0], env)
 		return TV{T: fmt.Sprintf("(mod %s %s)", a.T, W64), Typ: tInt}
